@@ -332,6 +332,9 @@ def judge_capture(s, s2, ctext, case):
         if r_c != r_built:
             viols.append(Viol(f'c14:render:{what}:api', f'.{what} of the parsed database differs from the API-built one with the same comments:\n'
                               + c02._first_diff(r_built, r_c), case, size=len(ctext)))
+    # comments changed, removed or added through the API after the first rendering show up in the next one
+    viols += edit_comments_phase(s2, db, case, len(ctext))
+    db = _parse(ctext, s.allow_properties)
     # ROUNDTRIP of the comments through .dbml
     vs, _ = c02.check_db(db, case, None, s.allow_properties)
     for x in vs:
@@ -340,6 +343,51 @@ def judge_capture(s, s2, ctext, case):
             fid = 'F-COLCOMMENT'
         viols.append(Viol('c14:roundtrip:' + x.bucket, x.message, case, finding=fid, size=len(ctext)))
     return viols
+
+
+def edit_comments_phase(s2, db, case, size):
+    s3 = copy.deepcopy(s2)
+    k = [0]
+
+    def nxt(old):
+        k[0] += 1
+        if old is None:
+            return f'added {k[0]}' if k[0] % 3 == 0 else None
+        return None if k[0] % 2 else f'{old} (edited {k[0]})'
+    live_refs = list(db.refs)
+    arefs = s3.all_refs()
+    if (len(db.tables), len(db.enums), len(live_refs), len(db.table_groups)) != (len(s3.tables), len(s3.enums), len(arefs), len(s3.groups)):
+        return []
+    for t, lt in zip(s3.tables, db.tables):
+        t.comment = lt.comment = nxt(t.comment)
+        for c, lc in zip(t.columns, lt.columns):
+            c.comment = lc.comment = nxt(c.comment)
+        for i, li in zip(t.indexes, lt.indexes):
+            i.comment = li.comment = nxt(i.comment)
+    for e, le in zip(s3.enums, db.enums):
+        e.comment = le.comment = nxt(e.comment)
+        for i, li in zip(e.items, le.items):
+            i.comment = li.comment = nxt(i.comment)
+    for n, (r, lr) in enumerate(zip(arefs, live_refs)):
+        if not r.inline:
+            new = nxt(r.comment)
+            r.comment = lr.comment = (f'{new} #{n}' if new else None)
+    for g, lg in zip(s3.groups, db.table_groups):
+        g.comment = lg.comment = nxt(g.comment)
+    if s3.project is not None and db.project is not None:
+        s3.project.comment = db.project.comment = nxt(s3.project.comment)
+    out = []
+    fresh = build(s3)
+    for what in ('dbml', 'sql'):
+        try:
+            a, b = getattr(db, what), getattr(fresh, what)
+        except Exception as e:  # noqa
+            out.append(Viol(f'c14:edit:{what}:raise', f'.{what} raised {type(e).__name__} after comments were edited: {e}', case, size=size))
+            continue
+        if a != b:
+            out.append(Viol(f'c14:edit:{what}', f'after changing / removing / adding comments through the API, .{what} differs from a fresh build '
+                                                f'with the same comments:\n' + c02._first_diff(b, a), case, size=size))
+    return out
 
 
 def eval_capture(c, ctx: Ctx = None):
